@@ -61,7 +61,8 @@ def node_s(depth):
     size = st.one_of(st.sampled_from(SIZES), st.integers(0, 300), st.integers(0, 200_000))
     content = st.tuples(st.sampled_from(["rand", "rand", "text", "ws"]), size, st.integers(0, 10_000)).map(list)
     fname = st.sampled_from(FILE_NAMES)
-    fileref = st.fixed_dictionaries({"name": fname, "content": content, "abs": st.booleans()})
+    # "link": the path named in the description is a symbolic link to the file (a build tree linking to artifacts stored elsewhere)
+    fileref = st.fixed_dictionaries({"name": fname, "content": content, "abs": st.booleans(), "link": st.sampled_from([False, False, False, True])})
     block = st.fixed_dictionaries(
         {
             "alg": G.hash_s,
@@ -82,6 +83,9 @@ def node_s(depth):
         "severed": st.sampled_from([None, None, "suit-payload-fetch", "suit-text"]),
         # the node's own (to be recomputed) wrapper digest written in one of the file notations
         "wrapper_digest": st.sampled_from([None, None, "file", "file_direct", "raw"]),
+        # order of the envelope members in the description (description order is the wire order - for a dependency given inline exactly as
+        # for the same description created on its own)
+        "order": st.integers(0, 23),
         "sev_alg": G.hash_s,
     }
     if depth == 0:
@@ -119,8 +123,16 @@ class Builder:
         full = os.path.join(self.root, rel)
         os.makedirs(os.path.dirname(full), exist_ok=True)
         data = content_bytes(fileref["content"])
-        with open(full, "wb") as fh:
-            fh.write(data)
+        if fileref.get("link") and not os.path.lexists(full):
+            target = os.path.join(os.path.dirname(full), "artifacts-store", "v1.2", os.path.basename(full) + ".real")
+            os.makedirs(os.path.dirname(target), exist_ok=True)
+            with open(target, "wb") as fh:
+                fh.write(data)
+            os.symlink(os.path.relpath(target, os.path.dirname(full)), full)
+            self.styles.add("symlink")
+        else:
+            with open(full, "wb") as fh:
+                fh.write(data)
         self.sizes.add(len(data) if len(data) in SIZES else ("s" if len(data) < 65536 else "L"))
         self.styles.add("abs" if fileref["abs"] else "rel")
         if PURE_HEX.match(os.path.basename(fileref["name"])):
@@ -238,6 +250,16 @@ class Builder:
             e["suit-integrated-payloads"] = payloads
         if deps:
             e["suit-integrated-dependencies"] = deps
+        k = node.get("order", 0)
+        if k:
+            keys = list(e)
+            perm = []
+            while keys:
+                perm.append(keys.pop(k % len(keys)))
+                k //= 2
+            e = {kk: e[kk] for kk in perm}
+            if list(e)[:2] != ["suit-authentication-wrapper", "suit-manifest"]:
+                self.forms.add("node:members-out-of-key-order")
         return {"SUIT_Envelope_Tagged": e}, exp
 
 
@@ -460,7 +482,7 @@ def finalize(ctx, m, ev):
     c = m["counters"]
     ev["coverage"]["excluded_known"] = {"F9": c.get("excluded_known:F9", 0)}
     need = ["digest:file", "digest:file_direct", "digest:raw", "digest:envelope", "size:file", "size:file_direct", "size:raw", "size:envelope",
-            "payload:path", "payload:hex", "dep:inline", "dep:path", "wrapper-digest:file", "wrapper-digest:file_direct", "wrapper-digest:raw", "depth:3", "style:abs", "style:rel", "style:hexlike-name", "style:hexlike-envelope-ref", "dep-file:stale-digest", "dep-file:reordered", "route:json", "route:yaml"]
+            "payload:path", "payload:hex", "dep:inline", "dep:path", "wrapper-digest:file", "wrapper-digest:file_direct", "wrapper-digest:raw", "depth:3", "style:abs", "style:rel", "style:hexlike-name", "style:hexlike-envelope-ref", "style:symlink", "node:members-out-of-key-order", "dep-file:stale-digest", "dep-file:reordered", "route:json", "route:yaml"]
     for n in need:
         if not c.get(n):
             raise boot.HarnessError(f"interesting class {n} is empty")
